@@ -41,6 +41,14 @@ func execWrongType(op string, a []string) string {
 			return "rejected"
 		}
 		return "accepted"
+	case "wire.badarity":
+		// wire.badarity <kind> <hex>: a genuine message of that kind with well-formed members appended to, or the last
+		// member dropped from, its outer array (the kinds have a fixed arity: 3, 4 or 5) — or the same inside one of its
+		// signature / recipient entries
+		if reencode(a[0], unhx(a[1])) == "err" {
+			return "rejected"
+		}
+		return "accepted"
 	case "wire.badbucket":
 		// wire.badbucket <kind> <hex>: the protected bucket holds something other than exactly one strict map
 		if reencode(a[0], unhx(a[1])) == "err" {
@@ -180,6 +188,36 @@ func genWrongType(r *rand.Rand, n int) []string {
 		}
 		data := append(append(append([]byte{}, p.data[:spans[k][0]]...), repl...), p.data[spans[k][1]:]...)
 		out = append(out, fmt.Sprintf("wire.wrongtype %s %s", kind, hx(data)))
+		// the outer array one or two members longer / one member shorter, every kind in turn
+		{
+			kq := kindsAll[i%len(kindsAll)]
+			q := p
+			if kq != kind {
+				q = genOne(r, kq, false)
+			}
+			if q.ok && q.data != nil {
+				start, sp := topMembers(q.data)
+				if start > 0 && len(sp) >= 3 && len(sp) < 20 {
+					d := append([]byte{}, q.data...)
+					if (i/len(kindsAll))%3 == 2 { // one member fewer
+						d = append(append([]byte{}, d[:sp[len(sp)-1][0]]...), d[sp[len(sp)-1][1]:]...)
+						d[start-1]--
+					} else {
+						extra := [][]byte{{0xf6}, {0x80}, {0x40}, {0xa0}, {0x00}, {0x81, 0x83, 0x40, 0xa0, 0x40}}
+						nx := 1 + (i/len(kindsAll))%2
+						end := sp[len(sp)-1][1]
+						tail := append([]byte{}, d[end:]...)
+						d = d[:end]
+						for j := 0; j < nx; j++ {
+							d = append(d, extra[(i+j)%len(extra)]...)
+						}
+						d = append(d, tail...)
+						d[start-1] += byte(nx)
+					}
+					out = append(out, fmt.Sprintf("wire.badarity %s %s", kq, hx(d)))
+				}
+			}
+		}
 		// the protected bucket with content the strict decoder must refuse
 		if pm := p.data[spans[0][0]:spans[0][1]]; pm[0]>>5 == 2 {
 			pc, _ := bstrContent(pm)
